@@ -51,6 +51,11 @@ type Op struct {
 	// get: lookup of Pid; sources in Fail return an error from Fetch.  DuringMiss: a
 	// Refresh request arrives while the miss is being fetched.
 	DuringMiss bool `json:"during_miss,omitempty"`
+	// with DuringMiss: while the miss's Fetch is held open (its answer already taken) and
+	// before the Refresh request arrives, source DSrc starts reporting Pid with time DTime
+	DSet  bool  `json:"dset,omitempty"`
+	DSrc  int   `json:"dsrc,omitempty"`
+	DTime int64 `json:"dtime,omitempty"`
 }
 
 func Set(src, pid int, t int64) Op { return Op{Kind: "set", Src: src, Pid: pid, Time: t, CancelAt: -1} }
@@ -93,6 +98,9 @@ func (o Op) String() string {
 		}
 		if o.DuringMiss {
 			s += ",refresh-during-miss"
+		}
+		if o.DSet {
+			s += fmt.Sprintf(",set(s%d,t%d)-during", o.DSrc, o.DTime)
 		}
 		return s + ")"
 	}
@@ -226,20 +234,22 @@ func (s *source) FetchAll(ctx context.Context) ([]*model.ProviderInfo, error) {
 
 func (s *source) Fetch(ctx context.Context, pid peer.ID) (*model.ProviderInfo, error) {
 	s.callsFetch.Add(1)
+	// the answer is what the source has when the call ARRIVES; it may then take a while
+	// to be delivered (gate)
 	s.mu.Lock()
 	gate, entered := s.gateFetch, s.entered
 	s.gateFetch = nil
+	fail := s.failFetch
+	answer := cloneInfo(s.content[PeerIndex(pid)])
 	s.mu.Unlock()
 	if gate != nil {
 		close(entered)
 		<-gate
 	}
-	s.mu.Lock()
-	defer s.mu.Unlock()
-	if s.failFetch {
+	if fail {
 		return nil, errScripted
 	}
-	return cloneInfo(s.content[PeerIndex(pid)]), nil
+	return answer, nil
 }
 
 func (s *source) String() string { return fmt.Sprintf("scripted-%d", s.idx) }
@@ -499,6 +509,20 @@ func Run(h History, ttl time.Duration, settle time.Duration) (res RunResult) {
 		}
 	}
 
+	applySet := func(src, pid int, t int64) {
+		s := srcs[src]
+		s.mu.Lock()
+		defer s.mu.Unlock()
+		if t < 0 {
+			delete(s.content, pid)
+			delete(s.recs, pid)
+			return
+		}
+		tag++
+		s.content[pid] = versionInfo(pid, t, tag)
+		reg[contentKey(s.content[pid])] = RecV{Pid: pid, Time: t, Tag: tag}
+		s.recs[pid] = RecV{Pid: pid, Time: t, Tag: tag}
+	}
 	lastCall := -1
 	for oi, op := range h.Ops {
 		if op.Kind == "refresh" || op.Kind == "get" {
@@ -510,20 +534,7 @@ func Run(h History, ttl time.Duration, settle time.Duration) (res RunResult) {
 		vnow := epoch*VirtualEpoch + int64(oi)
 		switch op.Kind {
 		case "set":
-			s := srcs[op.Src]
-			s.mu.Lock()
-			if op.Time < 0 {
-				delete(s.content, op.Pid)
-				delete(s.recs, op.Pid)
-			} else {
-				tag++
-				ai := AddrInfo(op.Pid, tag)
-				_ = ai
-				s.content[op.Pid] = versionInfo(op.Pid, op.Time, tag)
-				reg[contentKey(s.content[op.Pid])] = RecV{Pid: op.Pid, Time: op.Time, Tag: tag}
-				s.recs[op.Pid] = RecV{Pid: op.Pid, Time: op.Time, Tag: tag}
-			}
-			s.mu.Unlock()
+			applySet(op.Src, op.Pid, op.Time)
 
 		case "expire":
 			// more than one ttl after the last call of the epoch
@@ -816,6 +827,9 @@ func Run(h History, ttl time.Duration, settle time.Duration) (res RunResult) {
 						st.Got = &r
 					}
 					return
+				}
+				if op.DSet {
+					applySet(op.DSrc, op.Pid, op.DTime) // the source learns of the provider now
 				}
 				started := make(chan struct{}, 1)
 				bdone := make(chan error, 1)
